@@ -6,7 +6,7 @@ Complexity (mean): m * n * log(n) with n = nb of elements, m = nb of rankings.
 A class that implements the abstract class must implement the choice of the pivot.
 """
 
-from typing import List, Dict
+from typing import List, Dict, Tuple
 from numpy import ndarray, asarray
 from corankco.algorithms.rank_aggregation_algorithm import RankAggAlgorithm
 from corankco.dataset import Dataset
@@ -90,36 +90,40 @@ class KwikSortAbs(RankAggAlgorithm):
 
     def _kwik_sort(self, consensus: List[List[Element]], remaining_elements: List[Element],
                    mapping_element_id: Dict[Element, int], positions: ndarray, scoring_scheme: ndarray):
-        after: List[Element] = []
-        before: List[Element] = []
-        pivot: Element = Element(-1)
-        if len(mapping_element_id) > 0:
-            pivot = self._get_pivot(mapping_element_id, remaining_elements, positions, scoring_scheme)
-        same: List[Element] = [pivot]
-        positions_pivot = positions[mapping_element_id.get(pivot)]
+        # groups that remain to be sorted, and buckets that are ready, are kept on an explicit stack in the reverse order of
+        # their treatment (what is before the pivot, then the pivot's bucket, then what is after): the depth of a recursion
+        # would be the number of nested pivots, which can reach the number of elements
+        todo: List[Tuple[List[Element], bool]] = [(remaining_elements, False)]
+        while len(todo) > 0:
+            elements, is_bucket = todo.pop()
+            if is_bucket:
+                consensus.append(elements)
+                continue
+            after: List[Element] = []
+            before: List[Element] = []
+            pivot: Element = Element(-1)
+            if len(mapping_element_id) > 0:
+                pivot = self._get_pivot(mapping_element_id, elements, positions, scoring_scheme)
+            same: List[Element] = [pivot]
+            positions_pivot = positions[mapping_element_id.get(pivot)]
 
-        # compare pivot with all remaining elements to separate between "left", "center", "right"
-        for element in remaining_elements:
-            if element != pivot:
-                positions_element = positions[mapping_element_id.get(element)]
-                pos = self._where_should_it_be(positions_pivot, positions_element, scoring_scheme)
-                if pos < 0:
-                    before.append(element)
-                elif pos > 0:
-                    after.append(element)
-                else:
-                    same.append(element)
+            # compare pivot with all remaining elements to separate between "left", "center", "right"
+            for element in elements:
+                if element != pivot:
+                    positions_element = positions[mapping_element_id.get(element)]
+                    pos = self._where_should_it_be(positions_pivot, positions_element, scoring_scheme)
+                    if pos < 0:
+                        before.append(element)
+                    elif pos > 0:
+                        after.append(element)
+                    else:
+                        same.append(element)
 
-        if len(before) == 1:
-            consensus.append(before)
-        elif len(before) > 0:
-            self._kwik_sort(consensus, before, mapping_element_id, positions, scoring_scheme)
-        if len(same) > 0:
-            consensus.append(same)
-        if len(after) == 1:
-            consensus.append(after)
-        elif len(after) > 0:
-            self._kwik_sort(consensus, after, mapping_element_id, positions, scoring_scheme)
+            if len(after) > 0:
+                todo.append((after, len(after) == 1))
+            todo.append((same, True))
+            if len(before) > 0:
+                todo.append((before, len(before) == 1))
 
     def get_full_name(self) -> str:
         """
